@@ -1,24 +1,15 @@
 #!/usr/bin/env python3
 """Regenerate known_locals.json: for every function of the pinned tree, how each local is bound (see vk/renameback.py).
-Run on the pinned tree, after canonicalisation (the same trees the rules see)."""
-import ast, json, os, sys
+Run on the pinned tree; the snapshot is taken at the loading stage where the rename-back runs (after spelling
+canonicalisation, before indexing), so that both sides of the later comparison are in the same state."""
+import json, os, sys
 HERE = os.path.dirname(os.path.dirname(os.path.abspath(__file__)))
 sys.path.insert(0, HERE)
 sys.dont_write_bytecode = True
 os.environ["VK_NO_RENAMEBACK"] = "1"
+os.environ["VK_SNAPSHOT_LOCALS"] = "1"
 from vk.loader import Program
-from vk.inline import qualnames
-from vk import renameback
 prog = Program()
-out = {}
-n = 0
-for m in prog.modules.values():
-    rec = {}
-    for q, (fn, _cls) in sorted(qualnames(m.tree).items()):
-        rec[q] = renameback.signature(fn)
-        n += len(rec[q])
-        for sub in [x for x in ast.walk(fn) if isinstance(x, (ast.FunctionDef, ast.AsyncFunctionDef)) and x is not fn]:
-            rec[f"{q}.<locals>.{sub.name}"] = renameback.signature(sub)
-    out[m.path] = rec
+out = prog.local_signatures
 json.dump(out, open(os.path.join(HERE, "known_locals.json"), "w"), indent=1, sort_keys=True)
-print(n, "locals recorded")
+print(sum(len(v) for m in out.values() for v in m.values()), "locals recorded")
